@@ -273,6 +273,9 @@ func runC16(c *Ctx) error {
 			switch tn {
 			case "WLeaf":
 				obj = &WLeaf{}
+				if len(rm)%2 == 1 { // a typed nil pointer designates the type just as well
+					obj = (*WLeaf)(nil)
+				}
 			case "WNode":
 				obj = &WNode{}
 			case "verif/harness/internal/orders/pb.Item":
@@ -281,6 +284,9 @@ func runC16(c *Ctx) error {
 				obj = upb.Item{}
 			case "WMid":
 				obj = WMid{}
+				if len(rm)%2 == 0 {
+					obj = &WMid{}
+				}
 			default:
 				obj = &WTop{}
 			}
